@@ -145,11 +145,24 @@ def main() -> int:
         say('FAILED', {'error': repr(e), 'tb': traceback.format_exc()[-1500:]})
         return 3
 
+    p2 = None
+    if spec.get('second'):
+        # a second, independent instance inside the same embedding process, started while the first one is running
+        try:
+            p2 = proxy.Proxy(spec['second'], **opts)
+            p2.setup()
+        except BaseException as e:      # noqa: B902
+            say('FAILED', {'error': 'second instance: ' + repr(e), 'tb': traceback.format_exc()[-1500:]})
+            return 3
+
     def snap() -> Dict[str, Any]:
         kids = children_of(os.getpid())
-        return {'pid': os.getpid(), 'port': p.flags.port, 'ports': list(p.flags.ports), 'children': kids,
-                'fds': {str(k): fds_of(k) for k in [os.getpid()] + kids},
-                'unix_socket_path': p.flags.unix_socket_path}
+        d = {'pid': os.getpid(), 'port': p.flags.port, 'ports': list(p.flags.ports), 'children': kids,
+             'fds': {str(k): fds_of(k) for k in [os.getpid()] + kids},
+             'unix_socket_path': p.flags.unix_socket_path}
+        if p2 is not None:
+            d['second'] = {'port': p2.flags.port, 'ports': list(p2.flags.ports)}
+        return d
     say('READY', snap())
     shut = False
     for line in sys.stdin:
@@ -158,11 +171,16 @@ def main() -> int:
             say('SNAP', snap())
         elif cmd == 'SHUTDOWN':
             kids = children_of(os.getpid())
+            err = None
+            if p2 is not None:
+                try:
+                    p2.shutdown()
+                except BaseException as e:      # noqa: B902
+                    err = 'second instance: ' + repr(e) + traceback.format_exc()[-800:]
             try:
                 p.shutdown()
-                err = None
             except BaseException as e:      # noqa: B902
-                err = repr(e) + traceback.format_exc()[-800:]
+                err = (err or '') + repr(e) + traceback.format_exc()[-800:]
             say('DOWN', {'children_before': kids, 'children_after': children_of(os.getpid()), 'error': err,
                          'fds_after': fds_of(os.getpid())})
             # the embedding process lives on after shutdown(): stay until told to exit, so that whatever the
